@@ -420,6 +420,9 @@ pub fn corpus() -> Vec<&'static str> {
     "n1 + nz",
     "{n1: 100, r: n1}.r",
     "(function(n1) n1 + n2)(1)",
+    "for i in 9223372036854775807..9223372036854775807 return 1",
+    "for i in -9223372036854775808..-9223372036854775808 return 1",
+    "for i in 9223372036854775806..9223372036854775807 return 1",
   ]
 }
 
